@@ -29,6 +29,26 @@ pub fn block_on<F: Future>(fut: F) -> F::Output {
     }
 }
 
+/// `block_on` with a deadline: None when the future is still pending at the deadline (it is dropped)
+pub fn block_on_timeout<F: Future>(fut: F, timeout: Duration) -> Option<F::Output> {
+    let mut fut: Pin<Box<F>> = Box::pin(fut);
+    let waker: Waker = Arc::new(ThreadWaker(thread::current())).into();
+    let mut cx = Context::from_waker(&waker);
+    let deadline = std::time::Instant::now() + timeout;
+    loop {
+        match fut.as_mut().poll(&mut cx) {
+            Poll::Ready(v) => return Some(v),
+            Poll::Pending => {
+                let now = std::time::Instant::now();
+                if now >= deadline {
+                    return None;
+                }
+                thread::park_timeout(deadline - now);
+            }
+        }
+    }
+}
+
 #[derive(Debug, Clone, PartialEq)]
 pub enum Outcome<T> {
     Done(T),
@@ -100,6 +120,24 @@ pub fn with_deadline<T: Send + 'static, F: FnOnce() -> T + Send + 'static>(
                 }
             }
         }
+    }
+}
+
+/// like `with_deadline`, but a panic in some other thread does not shorten the deadline
+/// (for long batches of calls whose individual panics are attributed by the batch itself)
+pub fn with_plain_deadline<T: Send + 'static, F: FnOnce() -> T + Send + 'static>(deadline: Duration, f: F) -> Outcome<T> {
+    let (tx, rx) = mpsc::channel();
+    let _ = thread::Builder::new()
+        .name("lvh-batch".to_string())
+        .spawn(move || {
+            let r = catch_unwind(AssertUnwindSafe(f));
+            let _ = tx.send(r);
+        })
+        .expect("spawn");
+    match rx.recv_timeout(deadline) {
+        Ok(Ok(v)) => Outcome::Done(v),
+        Ok(Err(e)) => Outcome::Panicked(panic_message(e)),
+        Err(_) => Outcome::TimedOut,
     }
 }
 
